@@ -54,6 +54,19 @@ def build(ctx, rng, cond, shape=(3, 2, 2)):
     L.populate(a, rng)
     for di, d in enumerate(a.disks):
         a.write(d, 'z%d' % di, rng.randbytes(1500), mtime_ns=(T0 + 1000 + di) * 10**9)        # nanoseconds = 0: touch candidates
+    # touch candidates (nanoseconds 0) over the whole range of time_t the file system takes: beyond 2^31, beyond 2^32, before 1970,
+    # before -2^31; plus one drawn at random
+    far = [2**31 + 5, 2**32 + 7, -86400 * 400, -(2**31) - 11, 2**33 + 1, rng.randrange(-2**34, 2**34)]
+    for i, sec in enumerate(far):
+        d = a.disks[i % nd]
+        try:
+            a.write(d, 'far%d' % i, rng.randbytes(1100 + i), mtime_ns=sec * 10**9)
+            if os.stat(a.path(d, 'far%d' % i)).st_mtime_ns != sec * 10**9:
+                os.unlink(a.path(d, 'far%d' % i)); a.store.pop((d, 'far%d' % i), None)
+        except (OverflowError, OSError):
+            if os.path.lexists(a.path(d, 'far%d' % i)):
+                os.unlink(a.path(d, 'far%d' % i))
+            a.store.pop((d, 'far%d' % i), None)
     # a hardlink, two files with equal content (dup), the same path on two disks (pool duplicate)
     os.link(a.path(a.disks[0], 'a0'), a.path(a.disks[0], 'hl0'))
     same = rng.randbytes(2100)
@@ -91,6 +104,11 @@ def build(ctx, rng, cond, shape=(3, 2, 2)):
         for d, n, to in ((a.disks[0], 'a0', os.path.join(a.root, 'outside', 'target')), (a.disks[1], 'f1', 'a1'), (a.disks[nd - 1], 'dir/b%d' % (nd - 1), '/nowhere/at/all')):
             os.unlink(a.path(d, n))
             os.symlink(to, a.path(d, n))
+    elif cond == 'dirs_lost':
+        # whole directory chains of recorded files are gone: check / scrub / sync report the files, nothing re-creates the directories
+        shutil.rmtree(a.path(a.disks[0], 'dir'))
+        shutil.rmtree(a.path(a.disks[1], 'dir', 'sub'))
+        shutil.rmtree(a.path(a.disks[nd - 1], 'emptydir%d' % (nd - 1)))
     elif cond == 'data_and_parity_damaged':
         # silent damage in data AND in the parity of the same stripes: fix has to find out which is wrong
         for d, n, off in ((a.disks[0], 'a0', 7), (a.disks[1], 'f1', 2100)):
@@ -180,7 +198,7 @@ def build(ctx, rng, cond, shape=(3, 2, 2)):
 
 CONDS_QUICK = ['healthy', 'unsynced', 'damaged', 'disk_emptied', 'parity_deleted', 'content_deleted', 'parity_damaged', 'links_damaged',
                'sizes_changed', 'hardlinks_damaged', 'partial_sync', 'never_synced', 'data_and_parity_damaged', 'killed_sync',
-               'parity_split_missing', 'file_symlinked']
+               'parity_split_missing', 'file_symlinked', 'dirs_lost']
 
 RO_CMDS = [('status', []), ('diff', []), ('list', []), ('dup', []), ('check', []), ('check', ['-a']), ('check', ['-v']),
            ('check', ['-f', '/a0']), ('check', ['-d', 'd1']), ('check', ['-m']), ('check', ['-e']), ('check', ['-a', '-d', 'd2']),
@@ -395,6 +413,11 @@ def judge(ctx, a, paths, o, cond, st_before, replay, ignore=()):
         if t == 'pool':
             if cmd != 'pool':
                 bad('snap_pool', 'pool entry %s %s' % (cl[1], what))
+            continue
+        if what == 'dirmtime' and t in ('data', 'dataroot'):
+            if cmd == 'fix':
+                continue          # fix makes / removes entries in the directories of the objects it repairs (judged entry by entry)
+            bad('snap_dirmtime', 'the time of directory %s of data disk %s changed: an entry was created or removed in it' % (cl[2] if t == 'data' else '.', a.disks[cl[1]]))
             continue
         if t == 'data':
             di, rel = cl[1], cl[2]
@@ -842,6 +865,8 @@ def scenario_sync_disturbed(ctx, seed, variant, shape=(3, 2, 2)):
             os.chmod(victim, 0)
             if os.geteuid() == 0:
                 fail = 'open:/d1/new0:1:13'
+        if ignore:
+            ignore = tuple(ignore) + (os.path.dirname(victim),)
         one_run(ctx, a, paths, 'sync', opts, 'sync_disturbed:' + variant, replay, fail=fail, ignore=ignore, disturbed=True)
         # the array must still be usable by the next sync (and that one writes no data file either)
         if os.path.exists(victim):
@@ -872,6 +897,62 @@ def scenario_import(ctx, seed, cmd, cond):
         if os.path.lexists(a.path(a.disks[0], 'hl0')):
             os.unlink(a.path(a.disks[0], 'hl0'))
         one_run(ctx, a, paths, cmd, ['-i', os.path.join(a.root, 'imp')], 'import:' + cond, replay)
+    finally:
+        shutil.rmtree(a.root, ignore_errors=True)
+
+
+def scenario_pool_history(ctx, seed, order):
+    """pool run again and again along a history in which names change kind between the runs (file -> directory holding files on
+    two disks, directory -> file, symlink -> directory, nested paths -> file and back): whatever the previous pool tree looks
+    like (stale links in the way of new directories), nothing outside the pool directory is created, changed or removed"""
+    rng = random.Random(seed)
+    a = Array(ctx.binary, nd=2, np_=1, ncontent=1, shim=ctx.shim, pool=True)
+    paths = L.Paths(a)
+    replay = {'seed': seed, 'scenario': 'pool_history', 'order': order}
+    k = [0]
+
+    def put(d, n, size=600):
+        k[0] += 1
+        p = a.path(d, n)
+        if os.path.isdir(p) and not os.path.islink(p):
+            shutil.rmtree(p)
+        elif os.path.lexists(p):
+            os.unlink(p)
+        a.write(d, n, rng.randbytes(size + k[0]), mtime_ns=(T0 + 50 * k[0]) * 10**9 + 77 + k[0])
+
+    def rm(d, n):
+        p = a.path(d, n)
+        if os.path.isdir(p) and not os.path.islink(p):
+            shutil.rmtree(p)
+        elif os.path.lexists(p):
+            os.unlink(p)
+
+    def step(i):
+        if i == 0:
+            put('d1', 'a'); put('d1', 'k'); put('d2', 'c'); put('d1', 'b/x'); put('d1', 'n/m/f'); put('d2', 'n2'); put('d2', 'deep/er/file')
+            os.symlink('c', a.path('d2', 'ln'))
+        elif i == 1:      # file -> directory on both disks; symlink -> directory; nested -> file; file -> nested
+            rm('d1', 'a'); put('d1', 'a/x'); put('d2', 'a/y')
+            rm('d2', 'ln'); put('d2', 'ln/w'); put('d1', 'ln/v')
+            rm('d1', 'n'); put('d1', 'n')
+            rm('d2', 'n2'); put('d2', 'n2/q/r'); put('d1', 'n2/s')
+        elif i == 2:      # directory -> file; directory -> symlink; deeper nesting under a former file
+            rm('d1', 'b'); put('d1', 'b'); put('d2', 'b/z/zz')
+            rm('d1', 'a'); rm('d2', 'a'); put('d2', 'a')
+            rm('d2', 'deep'); os.symlink('k', a.path('d2', 'deep')); put('d1', 'deep/er/file/now/dir')
+        elif i == 3:      # back again, other disk
+            rm('d2', 'a'); put('d1', 'a/y/z'); put('d2', 'a/y/w')
+            rm('d1', 'n'); put('d2', 'n/m/f'); rm('d1', 'ln'); rm('d2', 'ln'); os.symlink('a', a.path('d1', 'ln'))
+            rm('d2', 'b'); rm('d1', 'b'); put('d1', 'b/x')
+    try:
+        for i in order:
+            step(i)
+            r = a.run('sync', '--force-empty', '--force-zero')
+            if r.rc != 0:
+                raise RuntimeError('sync of step %d failed: %r' % (i, r))
+            one_run(ctx, a, paths, 'pool', [], 'pool_history step %d of %s' % (i, order), replay)
+            if i % 2:
+                one_run(ctx, a, paths, 'pool', [], 'pool_history step %d again' % i, replay)
     finally:
         shutil.rmtree(a.root, ignore_errors=True)
 
@@ -963,6 +1044,8 @@ def main(tier, replay=None):
                     # levels excluded by the filters must stay untouched however wrong (or missing) they are
                     pick += [('fix', ['-d', 'd1']), ('fix', ['-f', '/a0']), ('fix', ['-d', 'd2', '-d', '2-parity']), ('fix', ['-m']), ('fix', ['-e']),
                              ('fix', ['-d', 'parity']), ('check', ['-d', 'd1'])]
+                if cond == 'dirs_lost':
+                    pick += [('scrub', ['-p', 'full']), ('sync', ['-h']), ('sync', ['-F']), ('fix', ['-d', 'd2']), ('fix', ['-f', '/dir/b0'])]
                 if cond == 'file_symlinked':
                     pick += [('fix', ['-e']), ('fix', ['-f', '/a0']), ('fix', ['-f', '/f1']), ('fix', ['-d', 'd1']), ('fix', ['-m']), ('check', []), ('sync', ['-h'])]
                 muts = list(dict.fromkeys((c, tuple(o)) for c, o in pick))
@@ -985,6 +1068,8 @@ def main(tier, replay=None):
     for c_, o_, f_ in ((('scrub', ['-p', 'full'], 'pread:/d1/:2:5')), ('scrub', ['-p', 'full'], 'pread:.parity:2:5'), ('scrub', ['-p', 'full', '--test-force-autosave-at', '1'], None),
                        ('scrub', ['-p', 'full'], 'open:/d2/f1:1:5')):
         jobs.append((scenario_mutating, (rng.getrandbits(30), 'healthy', shapes[0], c_, o_, f_, None)))
+    for order in ([[0, 1, 2, 3], [0, 2, 1], [0, 3, 1, 2]] if not thorough else [[0, 1, 2, 3], [0, 2, 1, 3], [0, 3, 1, 2], [0, 1, 3, 2, 1], [0, 2, 3, 1, 2, 3]]):
+        jobs.append((scenario_pool_history, (rng.getrandbits(30), order)))
     for c in ('fix', 'check'):
         jobs.append((scenario_import, (rng.getrandbits(30), c, 'three files lost, copies in the import directory')))
     # injected read errors: the documented sets hold on runs that end in errors too
